@@ -1046,8 +1046,9 @@ TYPES_TA = """module ta { yang-version 1.1; namespace "urn:verif:ta"; prefix pa;
 TYPES_NS = ' xmlns="urn:verif:ta" xmlns:pa="urn:verif:ta" xmlns:pb="urn:verif:tb" xmlns:pc="urn:verif:tc"'
 
 
-def types_modules():
-    """the module family: tb (base identity, typedefs, one annotation an-<t> of every type and anu-<t> = union of it and
+def types_modules(own=("pa", "pb", "pc")):
+    """the module family (own = the modules' own prefixes, which may legally coincide: the import prefixes pb / pc and the
+    prefixes declared in the instance documents stay): tb (base identity, typedefs, one annotation an-<t> of every type and anu-<t> = union of it and
     string), tc (identities), ta (annotations own-<t>, and per type a container g-<t>: leaf, leaf with default, leaf-list,
     list keyed by it, leafrefs to the leaf / the leafref / the leaf-list / the key, a list keyed by a leafref, unions with
     it as fixed / variable size member, a union of leafref + identityref + instance-identifier, a union leaf with default)"""
@@ -1078,7 +1079,12 @@ def types_modules():
               "type instance-identifier { require-instance false; } } }\n")
         g += "  }\n"
         groups.append(g)
-    return TYPES_TB % "".join(ann_b), TYPES_TC, TYPES_TA % ("".join(ann_a) + "".join(groups))
+    tb, tc, ta = TYPES_TB % "".join(ann_b), TYPES_TC, TYPES_TA % ("".join(ann_a) + "".join(groups))
+    if own != ("pa", "pb", "pc"):
+        ta = ta.replace("prefix pa;", "prefix %s;" % own[0], 1)
+        tb = tb.replace("pb:", own[1] + ":").replace("prefix pb;", "prefix %s;" % own[1], 1)
+        tc = tc.replace("prefix pc;", "prefix %s;" % own[2], 1)
+    return tb, tc, ta
 
 
 def _q(v):
@@ -1195,28 +1201,37 @@ class RoundTripTypes(Oracle):
         (1, "j", SIB, PARSE_ONLY | PARSE_STRICT, 0, "E"), (1, "b", SIB, PARSE_ONLY | PARSE_STRICT, 0, "E"),
     ]
 
+    def instance(self, rng, i):
+        """(XML document, own prefixes of ta / tb / tc): every third case the three modules legally share ONE prefix (the
+        printers must not rely on module prefixes being unique), every third case tb and tc do"""
+        own = [("pa", "pb", "pc"), ("p", "p", "p"), ("pa", "q", "q")][i % 3]
+        # every type is selected in turn, with a few random others; the instance-identifier group sees their instances
+        chosen = [TSPECS[i % len(TSPECS)]] + rng.sample(TSPECS, rng.randrange(2, 6))
+        seen, groups = set(), []
+        for s in chosen:
+            if s.tid not in seen and s.tid != "iid":
+                seen.add(s.tid)
+                groups.append(s)
+        parts, present = [], []
+        for s in groups:
+            x, p = self.group_xml(rng, s, list(s.vals))
+            parts.append((s, x))
+            present.append((s.tid, p["keys"], p["ll"]))
+        iid = [s for s in TSPECS if s.tid == "iid"][0]
+        x, _ = self.group_xml(rng, iid, self.values(iid, present))
+        parts.append((iid, x))
+        parts.sort(key=lambda p: [t.tid for t in TSPECS].index(p[0].tid))
+        return "".join(x for _, x in parts), own
+
     def gen(self, rng, tier, scale=1.0):
-        tb, tc, ta = types_modules()
+        mods = {}
         L = []
         n = self.n(tier, 150, 2500, scale)
         for i in range(n):
-            # every type is selected in turn, with a few random others; the instance-identifier group sees their instances
-            chosen = [TSPECS[i % len(TSPECS)]] + rng.sample(TSPECS, rng.randrange(2, 6))
-            seen, groups = set(), []
-            for s in chosen:
-                if s.tid not in seen and s.tid != "iid":
-                    seen.add(s.tid)
-                    groups.append(s)
-            parts, present = [], []
-            for s in groups:
-                x, p = self.group_xml(rng, s, list(s.vals))
-                parts.append((s, x))
-                present.append((s.tid, p["keys"], p["ll"]))
-            iid = [s for s in TSPECS if s.tid == "iid"][0]
-            x, _ = self.group_xml(rng, iid, self.values(iid, present))
-            parts.append((iid, x))
-            parts.sort(key=lambda p: [t.tid for t in TSPECS].index(p[0].tid))
-            data = "".join(x for _, x in parts)
+            data, own = self.instance(rng, i)
+            if own not in mods:
+                mods[own] = types_modules(own)
+            tb, tc, ta = mods[own]
             s = Script()
             s.ctx(searchdir=TEST_MODULES)
             s.mod(tb)
@@ -1241,7 +1256,7 @@ class RoundTripTypes(Oracle):
                 s.add("xcmp", "t%d" % src, "t2")
                 s.add("xdump", "t2")
                 spec.append("%dc/0/C" % src)
-            L.append("doc\t#y types 7 %s\t" % ";".join(spec) + "\t".join(s.cmds))
+            L.append("doc\t#y types 7 %s %s\t" % (";".join(spec), ",".join(own)) + "\t".join(s.cmds))
         return L
 
     @staticmethod
@@ -1283,11 +1298,15 @@ class RoundTripTypes(Oracle):
             if ok:
                 continue
             tag = None
-            if kf[1] in "bc" and rc(rt) != 0 and "invalid-lyb-union-value-no-matching-subtype-found" in rt:
-                # the LYB printer re-resolves the member type of a union value WITHOUT validation (lyb_union_print): a leafref
-                # member that was skipped for lack of a target instance is chosen, the value is printed (and kept in the tree)
-                # as that member, and the parser finds no member for it
-                tag = "lyb-union-member-reresolved"
+            own = hdr[4].split(",")
+            if len(set(own)) < 3 and (kf[1] in "xc"):
+                # listed findings of the XML printer where modules share a prefix (values are printed with the modules' own
+                # prefixes): a prefix needed for two namespaces in one start tag / a declaration for a value that re-binds a
+                # prefix used in the same start tag
+                data = [unhex(c.split(" ")[6]) for c in line.split("\t") if c.startswith("parse ")][0]
+                tag = "xml-same-prefix-value-clash" if types_clash_paths(data, own) else "xml-value-ns-redeclared"
+            # (the former finding lyb-union-member-reresolved - the LYB printer re-resolved the member type of a union value
+            # without validation - is fixed by affc70d: a recurrence is a plain violation)
             if rc(rt) != 0:
                 return (tag, "print / parse back failed (%s): %s" % (what, rt))
             a, b = (self.noflags(base[src]), self.noflags(dmp)) if mode == "F" else (base[src], dmp)
@@ -1295,3 +1314,302 @@ class RoundTripTypes(Oracle):
                 return (tag, "re-parsed tree differs (%s, dump): %s" % (what, diff_hint(a, b)))
             return (tag, "re-parsed tree differs (%s): compare:metadata = %s" % (what, cmp_))
         return None
+
+
+# ------------------------------------------------------------------------------------------------
+# C12 for prefixed values: what an independent namespace-aware reader understands
+# ------------------------------------------------------------------------------------------------
+QN_TIDS = ("ident", "iid", "xpath", "nii", "unionir")
+TYPES_URI = {"pa": "urn:verif:ta", "pb": "urn:verif:tb", "pc": "urn:verif:tc"}
+TYPES_MODNS = {"ta": "urn:verif:ta", "tb": "urn:verif:tb", "tc": "urn:verif:tc"}
+
+
+def _qn_norm(v):
+    """(string literals - key values in instance-identifier predicates - are canonicalised by the library: not compared)"""
+    import re
+    return re.sub(r"\s+", "", re.sub(r"'[^']*'|\"[^\"]*\"", "''", v))
+
+
+def xml_qnames(data, wrap=True):
+    """expat, namespace-aware: for every element / attribute of the types family that holds a prefixed value (identityref,
+    instance-identifier, xpath1.0, node-instance-identifier, unions of them; the leaf u3) the namespaces its prefixes stand
+    for IN THE SCOPE OF THE ELEMENT. Result: Counter of (path, '' or attribute name, value without prefixes, namespaces)"""
+    import collections
+    import re
+    import xml.parsers.expat
+    out = collections.Counter()
+    tok = re.compile(r"(?<![\w.:-])([A-Za-z_][\w.-]*):(?=[A-Za-z_*])")
+    scopes = [{}]
+    pending = {}
+    stack = []          # (local name, namespace, text parts, qname-typed?, attrs)
+
+    def resolve(v, scope, dflt):
+        if re.fullmatch(r"[A-Za-z_][\w.-]*", v):
+            return (dflt,)
+        res = []
+        for m in tok.finditer(re.sub(r"'[^']*'|\"[^\"]*\"", "''", v)):       # (not inside string literals)
+            if m.group(1) not in scope:
+                raise ValueError("prefix %r of the value %r is not declared in the scope" % (m.group(1), v))
+            res.append(scope[m.group(1)])
+        return tuple(res)
+
+    def start_ns(prefix, uri):
+        pending[prefix] = uri
+
+    def start(name, attrs):
+        scope = dict(scopes[-1])
+        scope.update(pending)
+        pending.clear()
+        scopes.append(scope)
+        ns, _, local = name.rpartition(" ")
+        group = ([e[0][2:] for e in stack if e[0].startswith("g-")] + [local[2:] if local.startswith("g-") else ""])[0]
+        path = tuple(s[0] for s in stack) + (local,)
+        typed = bool(group) and not local.startswith("g-") and (local == "u3" or (group in QN_TIDS and local in ("v", "d", "ll", "k", "r", "rr", "rl", "rk", "rd", "ud", "u1", "u2")))
+        stack.append([local, ns, [], typed, path])
+        for an, av in attrs.items():
+            ans, _, alocal = an.rpartition(" ")
+            if alocal.split("-", 1)[0] in ("an", "anu", "own"):
+                out[(path, alocal, "@namespace", (ans,))] += 1          # the annotation itself
+            if alocal.split("-", 1)[-1] in QN_TIDS and alocal.split("-", 1)[0] in ("an", "anu", "own"):
+                out[(path, alocal, _qn_norm(tok.sub("", av)), resolve(av, scope, None))] += 1
+
+    def chars(d):
+        if stack:
+            stack[-1][2].append(d)
+
+    def end(name):
+        local, ns, parts, typed, path = stack.pop()
+        scope = scopes.pop()
+        v = "".join(parts)
+        if typed and local == "u3" and not (v.startswith("/") or re.fullmatch(r"([A-Za-z_][\w.-]*:)?(a-one|b-one|b-two|c-one|shared)", v)):
+            typed = False                   # the union holds a value of the leafref's target type
+        if typed:
+            out[(path, "", _qn_norm(tok.sub("", v)), resolve(v, scope, ns))] += 1
+
+    p = xml.parsers.expat.ParserCreate(namespace_separator=" ")
+    p.StartNamespaceDeclHandler, p.StartElementHandler, p.EndElementHandler, p.CharacterDataHandler = start_ns, start, end, chars
+    p.buffer_text = True
+    p.Parse((b"<root>" + data + b"</root>") if wrap else data, True)
+    if wrap:
+        out = collections.Counter({(k[0][1:], k[1], k[2], k[3]): n for k, n in out.items()})
+    return out
+
+
+def types_clash_paths(data, own):
+    """the elements of an instance document of the types family whose start tag needs ONE prefix for TWO namespaces: the
+    prefixes in values are the modules' own prefixes (fixed), so the value of the node and the values of its metadata must
+    not refer to two modules that share their prefix (listed finding xml-same-prefix-value-clash)"""
+    import re
+    import xml.parsers.expat
+    ownof = dict(zip(("urn:verif:ta", "urn:verif:tb", "urn:verif:tc"), own))
+    tok = re.compile(r"(?<![\w.:-])(pa|pb|pc):(?=[A-Za-z_*])")
+    res = set()
+    stack = []
+
+    def start(name, attrs):
+        stack.append([name, [], [av for an, av in attrs.items() if ":" in an and an.split(":")[1].split("-", 1)[-1] in QN_TIDS]])
+
+    def chars(d):
+        stack[-1][1].append(d)
+
+    def end(name):
+        name, parts, avs = stack.pop()
+        group = ([e[0][2:] for e in stack if e[0].startswith("g-")] + [""])[0]
+        vals = list(avs)
+        if name == "u3" or (group in QN_TIDS and name in ("v", "d", "ll", "k", "r", "rr", "rl", "rk", "rd", "ud", "u1", "u2")):
+            vals.append("".join(parts))
+        mods = set(TYPES_URI[m] for v in vals for m in tok.findall(v))
+        if len(set(ownof[m] for m in mods)) < len(mods):
+            res.add(tuple(e[0] for e in stack[1:]) + (name,))
+
+    p = xml.parsers.expat.ParserCreate()
+    p.StartElementHandler, p.EndElementHandler, p.CharacterDataHandler = start, end, chars
+    p.buffer_text = True
+    p.Parse(b"<root>" + data + b"</root>", True)
+    return res
+
+
+def json_qnames(text):
+    """Python json: the identityref-like values (a single name, possibly module-qualified) of the same elements and
+    metadata, with the module each stands for per RFC 7951 / 7952 (unqualified: the module of the data node; metadata values
+    must be qualified); module names in other prefixed values must be known"""
+    import collections
+    import json
+    import re
+    out = collections.Counter()
+    doc = json.loads(text)
+    ident = re.compile(r"(?:([A-Za-z_][\w.-]*):)?([A-Za-z_][\w.-]*)")
+    tok = re.compile(r"(?<![\w.:-])([A-Za-z_][\w.-]*):(?=[A-Za-z_*])")
+
+    def value(path, kind, v, meta):
+        if not isinstance(v, str):
+            return
+        m = ident.fullmatch(v)
+        if m:
+            if m.group(1):
+                if m.group(1) not in TYPES_MODNS:
+                    raise ValueError("module %r of the value %r is unknown" % (m.group(1), v))
+                ns = TYPES_MODNS[m.group(1)]
+            elif meta:
+                raise ValueError("metadata value %r of %s is not module-qualified" % (v, kind))
+            else:
+                ns = TYPES_MODNS["ta"]
+            out[(path, kind, m.group(2), (ns,))] += 1
+        else:
+            for t in tok.finditer(re.sub(r"'[^']*'|\"[^\"]*\"", "''", v)):
+                if t.group(1) not in TYPES_MODNS:
+                    raise ValueError("module %r in the value %r is unknown" % (t.group(1), v))
+
+    def metas(path, obj):
+        if isinstance(obj, dict):
+            for k, v in obj.items():
+                local = k.split(":", 1)[-1]
+                if local.split("-", 1)[-1] in QN_TIDS and local.split("-", 1)[0] in ("an", "anu", "own"):
+                    value(path, local, v, True)
+
+    def walk(path, obj, group):
+        for k, v in obj.items():
+            if k == "@":
+                metas(path, v)
+                continue
+            local = k.split(":", 1)[-1]
+            if k.startswith("@"):
+                local = local if ":" in k else k[1:]
+                for x in (v if isinstance(v, list) else [v]):
+                    metas(path + (local,), x)
+                continue
+            g = group or (local[2:] if local.startswith("g-") else "")
+            typed = bool(path) and (local == "u3" or (g in QN_TIDS and local in ("v", "d", "ll", "k", "r", "rr", "rl", "rk", "rd", "ud", "u1", "u2")))
+            for x in (v if isinstance(v, list) and not (len(v) == 1 and v[0] is None) else [v]):
+                if isinstance(x, dict):
+                    walk(path + (local,), x, g)
+                elif typed and not (local == "u3" and isinstance(x, str) and not re.fullmatch(r"([A-Za-z_][\w.-]*:)?(a-one|b-one|b-two|c-one|shared)", x)):
+                    value(path + (local,), "", x, False)
+    walk((), doc, "")
+    return out
+
+
+class QNamesX(Oracle):
+    """C12 for values and metadata values that carry prefixes (identityref, instance-identifier, xpath1.0, unions of them) on
+    the instances of RoundTripTypes - including module families in which two or three modules legally share one prefix:
+    libyang's XML (shrunk, formatted, report-all) is read by expat with namespace processing and every prefix in such a
+    value must be declared in the scope of its element and stand for the namespace it stands for in the input document
+    (read by the same function); libyang's JSON is read by Python's json module, names must be qualified with the right
+    module. Neither reader shares code with libyang."""
+    name = "qnamesx"
+    driver = "t_doc"
+    PRINTS = [("x", SIB | PRINT_SHRINK, "="), ("x", SIB, "="), ("x", SIB | PRINT_SHRINK | WD_ALL, ">"), ("j", SIB | PRINT_SHRINK, "="), ("j", SIB, "=")]
+
+    def gen(self, rng, tier, scale=1.0):
+        src = RoundTripTypes()
+        mods = {}
+        L = []
+        for i in range(self.n(tier, 150, 2000, scale)):
+            data, own = src.instance(rng, i)
+            if own not in mods:
+                mods[own] = types_modules(own)
+            tb, tc, ta = mods[own]
+            s = Script()
+            s.ctx(searchdir=TEST_MODULES)
+            s.mod(tb)
+            s.mod(tc)
+            s.mod(ta)
+            s.parse(0, "x", data, popts=PARSE_STRICT, vopts=VAL_PRESENT)
+            for fmt, po, _ in self.PRINTS:
+                s.add("print", "t0", fmt, po)
+            L.append("doc\t#q types 5 %s\t" % ",".join(own) + "\t".join(s.cmds))
+        return L
+
+    def judge(self, line, out):
+        import json
+        import xml.parsers.expat
+        if crashed(out):
+            return (None, "crash: " + out)
+        r = results(out)[1:]
+        for x in r[:5]:
+            if rc(x) != 0:
+                self.skipped = getattr(self, "skipped", 0) + 1
+                return None
+        data = [unhex(c.split(" ")[6]) for c in line.split("\t") if c.startswith("parse ")][0]
+        own = line.split("\t")[1].split(" ")[3]
+        import re
+        want = xml_qnames(data)
+        clash = types_clash_paths(data, own.split(","))
+        wantj = None
+        known = None
+        for k, (fmt, po, rel) in enumerate(self.PRINTS):
+            res = r[5 + k]
+            what = "types family, own prefixes %s, format %s, print opts %d" % (own, fmt, po)
+            if rc(res) != 0:
+                return (None, "print failed (%s): %s" % (what, res))
+            doc = payload(res)
+            if fmt == "x":
+                try:
+                    for _ in range(500):
+                        try:
+                            got = xml_qnames(doc)
+                            break
+                        except xml.parsers.expat.ExpatError as e:
+                            # listed finding xml-value-ns-redeclared: a namespace prefix declared twice in ONE start tag (for the
+                            # metadata and again for the value of the node). The same namespace twice: the second declaration
+                            # is dropped and the document judged on; two namespaces (modules sharing a prefix): given up
+                            tag, cut = None, None
+                            if "duplicate attribute" in str(e):
+                                off = sum(len(ln) + 1 for ln in doc.split(b"\n")[:e.lineno - 1]) + e.offset
+                                a = doc.rfind(b"<", 0, doc.find(b">", off))
+                                b = doc.find(b">", a)
+                                decl = re.findall(rb'\sxmlns:([^=\s]+)="([^"]*)"', doc[a:b + 1])
+                                if len(decl) != len(set(d[0] for d in decl)):
+                                    tag = "xml-same-prefix-value-clash" if clash else "xml-value-ns-redeclared"
+                                    if len(set(decl)) == len(set(d[0] for d in decl)):
+                                        seen, tagtext = set(), doc[a:b + 1]
+                                        for m in list(re.finditer(rb'\sxmlns:([^=\s]+)="([^"]*)"', tagtext))[::-1]:
+                                            pass
+                                        out_, pos = b"", 0
+                                        for m in re.finditer(rb'\sxmlns:([^=\s]+)="([^"]*)"', tagtext):
+                                            if m.group(1) in seen:
+                                                out_ += tagtext[pos:m.start()]
+                                                pos = m.end()
+                                            seen.add(m.group(1))
+                                        cut = doc[:a] + out_ + tagtext[pos:] + doc[b + 1:]
+                            if cut is None:
+                                return (tag, "printed XML is not well-formed (%s): %s: %r" % (what, e, doc[max(0, e.offset - 150):e.offset + 60] if e.lineno == 1 else doc[:300]))
+                            known = (tag, "printed XML is not well-formed (%s): %s: %r" % (what, e, doc[max(0, e.offset - 150):e.offset + 60]))
+                            doc = cut
+                except ValueError as e:
+                    return (None, "printed XML (%s): %s" % (what, e))
+                if (got != want) if rel == "=" else any(got[key] < n for key, n in want.items()):
+                    d = [(key, n, got.get(key, 0)) for key, n in want.items() if got.get(key, 0) != n] or \
+                        [(key, 0, n) for key, n in got.items() if key not in want]
+                    if d[0][0][2] == "@namespace" and len(set(own.split(","))) < 3:
+                        # the same listed finding where modules share a prefix: the declaration for the value re-binds, in the
+                        # same start tag, the prefix a metadata attribute was printed with
+                        return ("xml-value-ns-redeclared", "a metadata attribute of the printed XML belongs to another namespace "
+                                "for a namespace-aware reader (%s): %r" % (what, d[0][0]))
+                    if d[0][0][0] in clash:
+                        return ("xml-same-prefix-value-clash", "a value that needs one prefix for two namespaces (modules sharing a "
+                                "prefix) means something else to a namespace-aware reader (%s): %r" % (what, d[0][0]))
+                    return (None, "a prefixed value in the printed XML means something else to a namespace-aware reader (%s): "
+                                  "(path, attribute, value, namespaces) expected x%d, found x%d: %r" % (what, d[0][1], d[0][2], d[0][0]))
+            else:
+                try:
+                    gotj = json_qnames(doc.decode("utf-8"))
+                except (UnicodeDecodeError, json.JSONDecodeError) as e:
+                    return (None, "printed JSON is not RFC 8259 JSON (%s): %s" % (what, e))
+                except ValueError as e:
+                    return (None, "printed JSON (%s): %s" % (what, e))
+                # the expectation for identityref-like values comes from the input document too
+                if wantj is None:
+                    wantj = {}
+                    for (path, kind, val, nss), n in want.items():
+                        if len(nss) == 1 and val != "@namespace" and re.fullmatch(r"[A-Za-z_][\w.-]*", val):
+                            wantj[(path, kind, val, nss)] = n
+                bare = lambda key: key[0][-1:] == ("u3",) and key[3] == (TYPES_MODNS["ta"],)
+                gj = {key: n for key, n in gotj.items() if not bare(key)}
+                wantj = {key: n for key, n in wantj.items() if not bare(key)}
+                if gj != wantj:
+                    d = [(key, n, gj.get(key, 0)) for key, n in wantj.items() if gj.get(key, 0) != n] or \
+                        [(key, 0, n) for key, n in gj.items() if key not in wantj]
+                    return (None, "an identityref value in the printed JSON names another module (%s): (path, metadata, value, "
+                                  "namespace) expected x%d, found x%d: %r" % (what, d[0][1], d[0][2], d[0][0]))
+        return known
